@@ -1,14 +1,404 @@
 package main
 
 // Table lemmas [T]: quantified facts about the constant tables of /repo, checked exhaustively on
-// the values produced by running the package initialisers in govc's interpreter.
+// the values produced by running the package initialisers (and table-building functions) of the
+// CURRENT working tree in govc's interpreter, against independently written spec tables
+// (/verif/spec/*). A failed lemma names the offending entry.
+
+import (
+	"fmt"
+	"sort"
+	"strings"
+	"time"
+
+	"verif/govc/exec"
+	"verif/spec/dmspec"
+	"verif/spec/onedspec"
+	"verif/spec/pdfspec"
+	"verif/spec/qrspec"
+)
+
+type tlCtx struct {
+	c     *exec.Conc
+	n     int
+	fails []string
+}
+
+func (t *tlCtx) check(ok bool, format string, args ...interface{}) {
+	t.n++
+	if !ok && len(t.fails) < 10 {
+		t.fails = append(t.fails, fmt.Sprintf(format, args...))
+	}
+}
 
 func runTableLemma(c *checkCtx, name string) []oblRes {
 	f, ok := tableLemmas[name]
 	if !ok {
 		return []oblRes{{Name: "table/" + name, Kind: "table", Proved: false, Output: "unknown table lemma"}}
 	}
-	return f(c)
+	t0 := time.Now()
+	t := &tlCtx{c: exec.NewConc(c.P)}
+	var engineErr string
+	func() {
+		defer func() {
+			if r := recover(); r != nil {
+				if e, ok := r.(*exec.ExecError); ok {
+					engineErr = e.Error()
+					return
+				}
+				panic(r)
+			}
+		}()
+		f(t)
+	}()
+	res := oblRes{Name: "table/" + name, Kind: "table", Solver: "exhaustive evaluation", Seconds: time.Since(t0).Seconds(), Size: t.n}
+	switch {
+	case engineErr != "":
+		res.Output = "could not evaluate the table: " + engineErr
+	case t.n == 0:
+		res.Output = "lemma checked nothing"
+	case len(t.fails) > 0:
+		res.Output = strings.Join(t.fails, "; ")
+	default:
+		res.Proved = true
+	}
+	return []oblRes{res}
 }
 
-var tableLemmas = map[string]func(c *checkCtx) []oblRes{}
+func must(v exec.Val, err error) exec.Val {
+	if err != nil {
+		panic(&exec.ExecError{Msg: err.Error()})
+	}
+	return v
+}
+
+func bitsToString(bs []bool) string {
+	var b strings.Builder
+	for _, x := range bs {
+		if x {
+			b.WriteByte('1')
+		} else {
+			b.WriteByte('0')
+		}
+	}
+	return b.String()
+}
+
+// ---------------------------------------------------------------- Galois fields
+
+// gfSpec builds antilog/log tables from the primitive polynomial by carry-less arithmetic.
+func gfSpec(pp, size int) (alog, log []int64) {
+	alog = make([]int64, size)
+	log = make([]int64, size)
+	x := 1
+	for i := 0; i < size; i++ {
+		alog[i] = int64(x)
+		x <<= 1
+		if x&size != 0 { // degree overflow: subtract (xor) the primitive polynomial
+			x ^= pp
+		}
+	}
+	for i := 0; i < size-1; i++ {
+		log[alog[i]] = int64(i)
+	}
+	return
+}
+
+func checkField(t *tlCtx, what string, gf exec.Val, pp, size, base int) {
+	c := t.c
+	t.check(!c.IsNil(gf), "%s: field is nil", what)
+	if c.IsNil(gf) {
+		return
+	}
+	t.check(c.Int(c.Field(gf, "Size")) == int64(size), "%s: Size=%d want %d", what, c.Int(c.Field(gf, "Size")), size)
+	t.check(c.Int(c.Field(gf, "Base")) == int64(base), "%s: Base=%d want %d", what, c.Int(c.Field(gf, "Base")), base)
+	at, lt := c.Field(gf, "ALogTbl"), c.Field(gf, "LogTbl")
+	t.check(c.Int(c.Field(at, "off")) == 0 && c.Int(c.Field(lt, "off")) == 0, "%s: tables are not whole slices", what)
+	alog, log := c.Ints(at), c.Ints(lt)
+	t.check(len(alog) == size && len(log) == size, "%s: table lengths %d/%d", what, len(alog), len(log))
+	if len(alog) != size || len(log) != size {
+		return
+	}
+	salog, slog := gfSpec(pp, size)
+	n := int64(size - 1)
+	for k := 0; k < size; k++ {
+		t.check(alog[k] == salog[k], "%s: ALogTbl[%d]=%d, alpha^%d is %d in GF(%d)/%#x", what, k, alog[k], k, salog[k], size, pp)
+		t.check(alog[k] >= 1 && alog[k] < int64(size), "%s: ALogTbl[%d]=%d out of range", what, k, alog[k])
+	}
+	t.check(alog[0] == 1 && alog[size-1] == 1, "%s: ALogTbl[0]/[Size-1] must be 1", what)
+	for a := 1; a < size; a++ {
+		// the implementation's quirk Log[1] == Size-1 is allowed: equality modulo Size-1
+		t.check(log[a]%n == slog[a]%n, "%s: LogTbl[%d]=%d want %d (mod %d)", what, a, log[a], slog[a], n)
+		t.check(log[a] >= 1 && log[a] <= n && alog[log[a]] == int64(a), "%s: ALogTbl[LogTbl[%d]] != %d", what, a, a)
+	}
+	for k := int64(1); k <= n; k++ {
+		t.check(log[alog[k]] == k, "%s: LogTbl[ALogTbl[%d]]=%d", what, k, log[alog[k]])
+	}
+}
+
+func init() {
+	tableLemmas["gf/fields"] = func(t *tlCtx) {
+		c := t.c
+		// the two package-level encoders
+		qrec := must(c.Global("qr.ec"))
+		checkField(t, "qr.ec.rs.gf (ISO 18004: GF(256)/0x11D, first root alpha^0)", c.Field(c.Field(qrec, "rs"), "gf"), 285, 256, 0)
+		dmec := must(c.Global("datamatrix.ec"))
+		checkField(t, "datamatrix.ec.rs.gf (ISO 16022: GF(256)/0x12D, first root alpha^1)", c.Field(c.Field(dmec, "rs"), "gf"), 301, 256, 1)
+		// Aztec: one field per codeword size (ISO 24778)
+		for _, f := range []struct{ w, pp, size int }{{4, 0x13, 16}, {6, 0x43, 64}, {8, 0x12D, 256}, {10, 0x409, 1024}, {12, 0x1069, 4096}} {
+			res, err := c.Call("aztec.getGF", exec.IntV(int64(f.w), c.ParamType("aztec.getGF", 0)))
+			if err != nil {
+				panic(&exec.ExecError{Msg: err.Error()})
+			}
+			checkField(t, fmt.Sprintf("aztec.getGF(%d)", f.w), res[0], f.pp, f.size, 1)
+		}
+		// and the constructor itself for the seven parameter triples
+		for _, f := range [][3]int{{285, 256, 0}, {301, 256, 1}, {0x13, 16, 1}, {0x43, 64, 1}, {0x12D, 256, 1}, {0x409, 1024, 1}, {0x1069, 4096, 1}} {
+			it := c.ParamType("utils.NewGaloisField", 0)
+			res, err := c.Call("utils.NewGaloisField", exec.IntV(int64(f[0]), it), exec.IntV(int64(f[1]), it), exec.IntV(int64(f[2]), it))
+			if err != nil {
+				panic(&exec.ExecError{Msg: err.Error()})
+			}
+			checkField(t, fmt.Sprintf("NewGaloisField(%d,%d,%d)", f[0], f[1], f[2]), res[0], f[0], f[1], f[2])
+		}
+		// the RS encoders start with the generator polynomial of degree 0
+		for _, g := range []string{"qr.ec", "datamatrix.ec"} {
+			rs := c.Field(must(c.Global(g)), "rs")
+			polys := c.Field(rs, "polynomes")
+			t.check(c.Len(polys) >= 1, "%s.rs.polynomes is empty", g)
+			if c.Len(polys) >= 1 {
+				co := c.Ints(c.Field(c.Elem(polys, 0), "Coefficients"))
+				t.check(len(co) == 1 && co[0] == 1, "%s.rs.polynomes[0] = %v, want [1]", g, co)
+			}
+			t.check(!c.IsNil(c.Field(rs, "m")), "%s.rs has no mutex", g)
+		}
+	}
+
+	// ---------------------------------------------------------------- QR
+	tableLemmas["qr/versionInfos"] = func(t *tlCtx) {
+		c := t.c
+		vis := must(c.Global("qr.versionInfos"))
+		n := c.Len(vis)
+		t.check(n == 160, "versionInfos has %d rows, want 160", n)
+		for i := int64(0); i < n; i++ {
+			row := c.Elem(vis, i)
+			v := int(c.Int(c.Field(row, "Version")))
+			lv := int(c.Int(c.Field(row, "Level")))
+			t.check(v == int(i)/4+1 && lv == int(i)%4, "row %d is (version %d, level %d): rows must be ordered by version then L,M,Q,H", i, v, lv)
+			if v < 1 || v > 40 || lv < 0 || lv > 3 {
+				continue
+			}
+			ec, n1, d1, n2, d2 := qrspec.BlockInfo(v, qrspec.Level(lv))
+			got := [5]int{int(c.Int(c.Field(row, "ErrorCorrectionCodewordsPerBlock"))), int(c.Int(c.Field(row, "NumberOfBlocksInGroup1"))), int(c.Int(c.Field(row, "DataCodeWordsPerBlockInGroup1"))), int(c.Int(c.Field(row, "NumberOfBlocksInGroup2"))), int(c.Int(c.Field(row, "DataCodeWordsPerBlockInGroup2")))}
+			want := [5]int{ec, n1, d1, n2, d2}
+			if n2 == 0 {
+				want[4] = got[4] // group 2 size is irrelevant without group-2 blocks
+				if got[3] != 0 {
+					want[4] = d2
+				}
+			}
+			t.check(got == want, "versionInfos[%d] (version %d level %s) = %v, ISO 18004 table 9 says %v (ec/block, blocks1, data1, blocks2, data2)", i, v, qrspec.Level(lv), got, want)
+			t.check((n1+n2)*ec+n1*d1+n2*d2 == qrspec.TotalCodewords(v), "version %d level %d: codeword total", v, lv)
+		}
+	}
+	tableLemmas["qr/charCountBits"] = func(t *tlCtx) {
+		c := t.c
+		vis := must(c.Global("qr.versionInfos"))
+		mt := c.ParamType("qr.(*versionInfo).charCountBits", 1)
+		for i := int64(0); i < c.Len(vis); i += 4 {
+			row := c.Elem(vis, i)
+			v := int(c.Int(c.Field(row, "Version")))
+			for _, m := range []qrspec.Mode{qrspec.ModeNumeric, qrspec.ModeAlpha, qrspec.ModeByte} {
+				res, err := c.Call("qr.(*versionInfo).charCountBits", row, exec.IntV(int64(m), mt))
+				if err != nil {
+					panic(&exec.ExecError{Msg: err.Error()})
+				}
+				t.check(int(c.Int(res[0])) == qrspec.CharCountBits(v, m), "charCountBits(version %d, mode %d) = %d, ISO table 3 says %d", v, m, c.Int(res[0]), qrspec.CharCountBits(v, m))
+			}
+			res, err := c.Call("qr.(*versionInfo).modulWidth", row)
+			if err != nil {
+				panic(&exec.ExecError{Msg: err.Error()})
+			}
+			t.check(int(c.Int(res[0])) == 17+4*v, "modulWidth(version %d) = %d", v, c.Int(res[0]))
+		}
+	}
+	tableLemmas["qr/formatInfos"] = func(t *tlCtx) {
+		c := t.c
+		fi := must(c.Global("qr.formatInfos"))
+		lvKeys, lvVals := c.MapEntries(fi)
+		t.check(len(lvKeys) == 4, "formatInfos has %d levels", len(lvKeys))
+		for i, lv := range lvKeys {
+			mKeys, mVals := c.MapEntries(lvVals[i])
+			t.check(len(mKeys) == 8, "formatInfos[%d] has %d masks", lv, len(mKeys))
+			for j, m := range mKeys {
+				bits := c.Bools(mVals[j])
+				w := qrspec.FormatWord(qrspec.Level(lv), int(m))
+				want := make([]bool, 15)
+				for k := 0; k < 15; k++ {
+					want[k] = (w>>uint(14-k))&1 == 1
+				}
+				t.check(bitsToString(bits) == bitsToString(want), "formatInfos[%s][%d] = %s, BCH(15,5) xor 0x5412 gives %s", qrspec.Level(lv), m, bitsToString(bits), bitsToString(want))
+			}
+		}
+		vb := must(c.Global("qr.versionInfoBitsByVersion"))
+		vKeys, vVals := c.MapEntries(vb)
+		t.check(len(vKeys) == 34, "versionInfoBitsByVersion has %d entries, want 34 (versions 7..40)", len(vKeys))
+		for i, v := range vKeys {
+			bits := c.Bools(vVals[i])
+			w := qrspec.VersionWord(int(v))
+			want := make([]bool, 18)
+			for k := 0; k < 18; k++ {
+				want[k] = (w>>uint(17-k))&1 == 1
+			}
+			t.check(v >= 7 && v <= 40 && bitsToString(bits) == bitsToString(want), "versionInfoBitsByVersion[%d] = %s, BCH(18,6) gives %s", v, bitsToString(bits), bitsToString(want))
+		}
+	}
+	tableLemmas["qr/alignment"] = func(t *tlCtx) {
+		c := t.c
+		vis := must(c.Global("qr.versionInfos"))
+		for i := int64(0); i < c.Len(vis); i += 4 {
+			row := c.Elem(vis, i)
+			v := int(c.Int(c.Field(row, "Version")))
+			res, err := c.Call("qr.(*versionInfo).alignmentPatternPlacements", row)
+			if err != nil {
+				panic(&exec.ExecError{Msg: err.Error()})
+			}
+			got := c.Ints(res[0])
+			want := qrspec.AlignmentCenters(v)
+			t.check(fmt.Sprint(got) == fmt.Sprint(toI64(want)), "alignmentPatternPlacements(version %d) = %v, ISO Annex E says %v", v, got, want)
+		}
+	}
+
+	// ---------------------------------------------------------------- DataMatrix
+	tableLemmas["dm/codeSizes"] = func(t *tlCtx) {
+		c := t.c
+		cs := must(c.Global("datamatrix.codeSizes"))
+		want := dmspec.Sizes()
+		t.check(int(c.Len(cs)) == len(want), "codeSizes has %d rows, ISO 16022 table 7 has %d square sizes", c.Len(cs), len(want))
+		prev := int64(-1)
+		for i := int64(0); i < c.Len(cs) && int(i) < len(want); i++ {
+			row := c.Elem(cs, i)
+			w := want[i]
+			got := [6]int64{c.Int(c.Field(row, "Rows")), c.Int(c.Field(row, "Columns")), c.Int(c.Field(row, "RegionCountHorizontal")), c.Int(c.Field(row, "RegionCountVertical")), c.Int(c.Field(row, "ECCCount")), c.Int(c.Field(row, "BlockCount"))}
+			exp := [6]int64{int64(w.Rows), int64(w.Cols), int64(w.RegionCols), int64(w.RegionRows), int64(w.ECCodewords), int64(w.Blocks)}
+			t.check(got == exp, "codeSizes[%d] = %v, ISO says %v (rows, cols, regionsH, regionsV, ecc, blocks)", i, got, exp)
+			for _, m := range []struct {
+				name string
+				want int
+			}{{"DataCodewords", w.DataCodewords}, {"MatrixRows", w.MatrixRows}, {"MatrixColumns", w.MatrixCols}, {"ErrorCorrectionCodewordsPerBlock", w.ECCodewords / w.Blocks}} {
+				res, err := c.Call("datamatrix.(*dmCodeSize)."+m.name, row)
+				if err != nil {
+					panic(&exec.ExecError{Msg: err.Error()})
+				}
+				t.check(c.Int(res[0]) == int64(m.want), "codeSizes[%d].%s() = %d, want %d", i, m.name, c.Int(res[0]), m.want)
+			}
+			it := c.ParamType("datamatrix.(*dmCodeSize).DataCodewordsForBlock", 1)
+			sum := int64(0)
+			for b := 0; b < w.Blocks; b++ {
+				res, err := c.Call("datamatrix.(*dmCodeSize).DataCodewordsForBlock", row, exec.IntV(int64(b), it))
+				if err != nil {
+					panic(&exec.ExecError{Msg: err.Error()})
+				}
+				t.check(c.Int(res[0]) == int64(w.BlockDataLen(b)), "codeSizes[%d].DataCodewordsForBlock(%d) = %d, want %d", i, b, c.Int(res[0]), w.BlockDataLen(b))
+				sum += c.Int(res[0])
+			}
+			t.check(sum == int64(w.DataCodewords), "codeSizes[%d]: block data lengths sum to %d, want %d", i, sum, w.DataCodewords)
+			dc := int64(w.DataCodewords)
+			t.check(dc > prev, "codeSizes[%d]: capacity must increase strictly", i)
+			prev = dc
+		}
+	}
+
+	// ---------------------------------------------------------------- Code 128
+	tableLemmas["code128/tables"] = func(t *tlCtx) {
+		c := t.c
+		et := must(c.Global("code128.encodingTable"))
+		want := onedspec.C128Patterns()
+		t.check(c.Len(et) == 107, "encodingTable has %d entries", c.Len(et))
+		for i := int64(0); i < c.Len(et) && i < 107; i++ {
+			got := bitsToString(c.Bools(c.Elem(et, i)))
+			t.check(got == want[i], "encodingTable[%d] = %s, ISO 15417 says %s", i, got, want[i])
+		}
+		// code set tables: B = ASCII 32..127, A = ASCII 32..95 then 0..31
+		bt := c.Str(must(c.Global("code128.bTable")))
+		at := c.Str(must(c.Global("code128.aTable")))
+		t.check(len(bt) == 96, "bTable has %d characters", len(bt))
+		for k := 0; k < len(bt) && k < 96; k++ {
+			t.check(int(bt[k]) == k+32, "bTable[%d] = %d, want %d", k, bt[k], k+32)
+		}
+		t.check(len(at) == 96, "aTable has %d characters", len(at))
+		for k := 0; k < len(at) && k < 96; k++ {
+			w := k + 32
+			if k >= 64 {
+				w = k - 64
+			}
+			t.check(int(at[k]) == w, "aTable[%d] = %d, want %d", k, at[k], w)
+		}
+		for name, w := range map[string]int64{"startASymbol": 103, "startBSymbol": 104, "startCSymbol": 105, "codeASymbol": 101, "codeBSymbol": 100, "codeCSymbol": 99, "stopSymbol": 106} {
+			v := must(c.Global("code128." + name))
+			t.check(c.Int(v) == w, "%s = %d, want %d", name, c.Int(v), w)
+		}
+		for name, w := range map[string]int64{"FNC1": 0xF1, "FNC2": 0xF2, "FNC3": 0xF3, "FNC4": 0xF4} {
+			v := must(c.Global("code128." + name))
+			t.check(c.Int(v) == w, "%s = %d", name, c.Int(v))
+		}
+	}
+
+	// ---------------------------------------------------------------- PDF417
+	tableLemmas["pdf417/tables"] = func(t *tlCtx) {
+		c := t.c
+		cw := must(c.Global("pdf417.codewords"))
+		t.check(c.Len(cw) == 3, "codewords has %d clusters", c.Len(cw))
+		var tbl [3][]uint32
+		for k := int64(0); k < 3 && k < c.Len(cw); k++ {
+			for _, v := range c.Ints(c.Elem(cw, k)) {
+				tbl[k] = append(tbl[k], uint32(v))
+			}
+		}
+		err := pdfspec.CheckPatternTable(tbl)
+		t.check(err == nil, "codewords table: %v", err)
+		t.check(c.Int(must(c.Global("pdf417.start_word"))) == pdfspec.StartPattern, "start_word")
+		t.check(c.Int(must(c.Global("pdf417.stop_word"))) == pdfspec.StopPattern, "stop_word")
+		cf := must(c.Global("pdf417.correctionFactors"))
+		t.check(c.Len(cf) == 9, "correctionFactors has %d levels", c.Len(cf))
+		for lv := int64(0); lv < 9 && lv < c.Len(cf); lv++ {
+			got := c.Ints(c.Elem(cf, lv))
+			want := pdfspec.GeneratorCoefficients(int(lv))
+			t.check(fmt.Sprint(got) == fmt.Sprint(toI64(want)), "correctionFactors[%d] differs from the coefficients of prod_{i=1..%d}(x-3^i) mod 929 (first difference at %d)", lv, len(want), firstDiff(got, toI64(want)))
+		}
+	}
+}
+
+func toI64(a []int) []int64 {
+	out := make([]int64, len(a))
+	for i, v := range a {
+		out[i] = int64(v)
+	}
+	return out
+}
+
+func firstDiff(a, b []int64) int {
+	for i := 0; i < len(a) && i < len(b); i++ {
+		if a[i] != b[i] {
+			return i
+		}
+	}
+	if len(a) != len(b) {
+		if len(a) < len(b) {
+			return len(a)
+		}
+		return len(b)
+	}
+	return -1
+}
+
+var tableLemmas = map[string]func(t *tlCtx){}
+
+func sortedLemmaNames() []string {
+	var ns []string
+	for n := range tableLemmas {
+		ns = append(ns, n)
+	}
+	sort.Strings(ns)
+	return ns
+}
